@@ -939,6 +939,7 @@ CORPUS: list[tuple[str, str, str]] = [
     # (name, construct family used in the finding key, module body after the standard header)
     ("dunder_kwonly", "fn_dunder", "def fd1(*, __x): pass\ndef fd2(**__kw): pass\ndef fd3(a, __b): pass\ndef fd4(__a, __b, c=1, *, __d=2): pass\n"),
     ("default_not_int", "fn", "def fn1(a=not 1): pass\n"),
+    ("default_float_overflow", "fn", "def fn1(a=1e999): pass\n"),
     ("default_forms", "fn", "def fn1(a=~1, b=+2, c=-1.5, d=(1,), e=[None, True], f={1: 'x'}, g={1}, h=set(), i=1_000, j=0x10, k='a' 'b', l=-(1)): pass\n"),
     ("alias_string_rhs", "alias", "Al1: TypeAlias = 'Optional[int]'\n"),
     ("cond_class_redef", "cond", "if DEF_K:\n    class co1:\n        a: int = 1\nelse:\n    class co1:  # type: ignore\n        a: int = 2\n"),
